@@ -82,6 +82,8 @@ class Runner:
         for i, op in enumerate(expand(ops), 1):
             kind = op["op"]
             name = BUCKETS[op["b"] % len(BUCKETS)]
+            if self.hooks and hasattr(self.hooks, "before"):
+                self.hooks.before(i, op)
             ids = live_ids(L, self.backend)
             exists = name in ids
             done = kind
